@@ -860,12 +860,27 @@ func ruleP06RuneWidth(p *Prog, r *Report) {
 					if !ok {
 						return false
 					}
+					// utf8.RuneLen(r): the width of the re-encoded rune
+					if g := staticCallee(c); g != nil && g.String() == "unicode/utf8.RuneLen" {
+						return strip(c.Call.Args[0]) == runeV
+					}
 					bi, ok := c.Call.Value.(*ssa.Builtin)
 					if !ok || bi.Name() != "len" {
 						return false
 					}
-					cv, ok := strip(c.Call.Args[0]).(*ssa.Convert)
-					return ok && strip(cv.X) == runeV
+					// len(string(r)) / len([]byte(string(r)))
+					a := strip(c.Call.Args[0])
+					for i := 0; i < 3; i++ {
+						cv, ok := a.(*ssa.Convert)
+						if !ok {
+							return false
+						}
+						if strip(cv.X) == runeV {
+							return true
+						}
+						a = strip(cv.X)
+					}
+					return false
 				}
 				if (isKey(b.X) && isRuneLen(b.Y)) || (isKey(b.Y) && isRuneLen(b.X)) {
 					// used as a slice bound (directly or through a variable)
@@ -876,7 +891,7 @@ func ruleP06RuneWidth(p *Prog, r *Report) {
 				}
 			})
 			if bad {
-				r.bad(rule, fnName(f), p.instrPos(at), "byte offset index + len(string(rune)) is used to slice the string being ranged over: for an invalid UTF-8 byte the rune is U+FFFD (3 bytes re-encoded) but only 1 byte wide, so the slice runs past the end of the text")
+				r.bad(rule, fnName(f), p.instrPos(at), "byte offset index + (re-encoded width of the rune) is used as a position in the string being ranged over: for an invalid UTF-8 byte the rune is U+FFFD (3 bytes re-encoded) but only 1 byte wide, so slices run past the end of the text and end-of-text tests miss the last line")
 			} else {
 				r.ok(rule, fnName(f), p.instrPos(in), "no slice bound is computed from the re-encoded width of the rune")
 			}
